@@ -12,7 +12,8 @@ for f in sys.argv[3:]:
     json.dump(rp, open(os.path.join(V, dst), "w"), indent=1, sort_keys=True)
     if os.path.abspath(f) != os.path.abspath(os.path.join(V, dst)):
         os.unlink(f)
-    kf = [k for k in kf if not (k["property"] == rp["property"] and k["signature"] == rp["class"])]
+    if any(k["property"] == rp["property"] and k["signature"] == rp["class"] for k in kf):
+        raise SystemExit("signature %s already registered: give the replay another name and register it by hand" % rp["class"])
     kf.append({"property": rp["property"], "signature": rp["class"], "status": "fixed", "commit": commit,
                "what": what, "replay": dst,
                "line": "fixed: property=%s %s %s (%s)" % (rp["property"], commit, what, rp["class"])})
